@@ -270,6 +270,47 @@ def rule_registry(ctx):
         calls = [e[1] for e in log_of(p[0].interp)]
         ok = [id(c[0]) for c in calls] == [id(o) for o in obs] and all(c[1] is m and c[2] is prm for c in calls)
     ctx.check(ok, R, "notify_listeners", fn.where(), "Sequencer.notify_listeners", "every attached listener must be notified once with (message, params)")
+    # an observer may detach itself (or attach another) from inside notify(): the others still get every message once
+    for label in ("first detaches itself", "middle detaches itself", "first detaches the next", "first attaches a newcomer"):
+        def go3(it, label=label):
+            seq, obs = make_seq(sci, oci, 3)
+            late = AObj(oci, {}, name="late")
+            seen = []
+
+            def notify(it_, a, k, n):
+                seen.append((a[0], a[1]))
+                if a[1] is m1:
+                    if label == "first detaches itself" and a[0] is obs[0]:
+                        it_.call_function(fd, [seq, obs[0]], {})
+                    elif label == "middle detaches itself" and a[0] is obs[1]:
+                        it_.call_function(fd, [seq, obs[1]], {})
+                    elif label == "first detaches the next" and a[0] is obs[0]:
+                        it_.call_function(fd, [seq, obs[1]], {})
+                    elif label == "first attaches a newcomer" and a[0] is obs[0]:
+                        it_.call_function(fa, [seq, late], {})
+                return None
+            m1, m2 = Token("msg1"), Token("msg2")
+            it.summaries = dict(it.summaries or {})
+            it.summaries["%s.SequencerObserver.notify" % SO] = notify
+            it.call_function(fn, [seq, m1, Token("params")], {})
+            it.call_function(fn, [seq, m2, Token("params")], {})
+            return obs, late, seen, m1, m2
+        p = explore(lambda ch: Interp(repo, ch, summaries={}), go3)
+        ok, why = len(p) == 1 and p[0].kind == "return", "outcome %s" % [(x.kind, short(repr(x.value), 60)) for x in p]
+        if ok:
+            obs, late, seen, m1, m2 = p[0].value
+            # who stays attached throughout gets both messages, once each; who is detached gets nothing afterwards
+            stay = {"first detaches itself": [1, 2], "middle detaches itself": [0, 2], "first detaches the next": [0, 2], "first attaches a newcomer": [0, 1, 2]}[label]
+            for i in stay:
+                got = [m for o, m in seen if o is obs[i]]
+                if [id(x) for x in got] != [id(m1), id(m2)]:
+                    ok, why = False, "observer %d, attached throughout, receives %s of the two messages (%s)" % (i, ["msg1" if x is m1 else "msg2" for x in got], label)
+            gone = {"first detaches itself": 0, "middle detaches itself": 1}.get(label)
+            if ok and gone is not None and [m for o, m in seen if o is obs[gone]] != [m1]:
+                ok, why = False, "the observer that detached itself at the first message still receives %d messages" % len([m for o, m in seen if o is obs[gone]])
+            if ok and label == "first attaches a newcomer" and m2 not in [m for o, m in seen if o is late]:
+                ok, why = False, "the newcomer never receives a message"
+        ctx.check(ok, R, "notify_listeners[%s]" % label, fn.where(), "Sequencer.notify_listeners while %s" % label, why)
     init = repo.find_method(sci, "__init__")
     p = run_method(repo, init, lambda: [AObj(sci, {}, name="seq")])
     ok = len(p) == 1 and p[0].interp.args[0].attrs.get("listeners") == []
@@ -497,6 +538,8 @@ def model_timeline(descs, bpm):
             spans.append((at, at + Fraction(1) / Fraction(d).limit_denominator(1000), notes))
             at += Fraction(1) / Fraction(d).limit_denominator(1000)
     times = sorted({t for a, b, _ in spans for t in (a, b)})
+    if not times:
+        return [([], None)]  # nothing to play: no event and no sleep
     out = []
     b = RatFun.of(bpm)
     for i, t in enumerate(times):
@@ -531,6 +574,10 @@ def rule_unequal_rhythms(ctx):
         ("half-full bars", [["N1", "N1"], ["N2"]], [[4, 4], [2]]),
         ("single half-full bar", [["N1", "R", "N1"]], [[4, 8, 8]]),
         ("first bar shorter", [["N1"], ["N1", "N1", "N1"]], [[4], [4, 4, 4]]),
+        # a bar with nothing in it yet (a new bar of a track, a voice that has not entered) plays nothing and ends nothing early
+        ("empty bar alone", [[]], [[]]),
+        ("empty bar beside a full one", [["N1", "N1"], []], [[2, 2], []]),
+        ("empty bar first", [[], ["N1", "N2"]], [[], [2, 2]]),
         # tuplets against binary values: the beat sums of the two bars are rounded differently in floating point
         ("triplets against eighths (2/4)", [["N1", "N1", "N1"], ["N1", "N1", "N1"]], [[12, 6, 4], [8, 4, 8]], 0.5),
         ("eighths against triplets (2/4)", [["N1", "N1", "N1"], ["N1", "N1", "N1"]], [[8, 8, 4], [12, 6, 4]], 0.5),
